@@ -96,35 +96,82 @@ def pminusG {α : Type} [Add α] (zero : α) (m : Nat) (P : Nat → Nat → α) 
 def asmG {α : Type} [Add α] [Mul α] (zero : α) (m : Nat) (P : Nat → Nat → α) : α :=
   gsum zero ((allPairs m).map fun (i, j) => P i j * P i j)
 
+/-! The features that do not involve logarithms are generic definitions (run at `Float`, proved over ordered
+fields in `Proofs/C19HaralickFeat.lean`); each is the textbook formula over the normalised matrix `p`. -/
+
+/-- `p.sum(0)`: column sums `p_x(j) = Σ_i p(i,j)` -/
+def colSumG {α : Type} [Add α] (zero : α) (m : Nat) (P : Nat → Nat → α) : List α :=
+  (List.range m).map fun j => gsum zero ((List.range m).map fun i => P i j)
+
+/-- `p.sum(1)`: row sums `p_y(i) = Σ_j p(i,j)` -/
+def rowSumG {α : Type} [Add α] (zero : α) (m : Nat) (P : Nat → Nat → α) : List α :=
+  (List.range m).map fun i => gsum zero ((List.range m).map fun j => P i j)
+
+/-- mean `Σ_{k<n} q(k) · k` of a distribution given as a list -/
+def meanG {α : Type} [Add α] [Mul α] (zero : α) (cast : Nat → α) (q : List α) (n : Nat) : α :=
+  gsum zero ((List.range n).map fun k => q.getD k zero * cast k)
+
+/-- second moment `Σ_{k<n} q(k) · k²` -/
+def meanSqG {α : Type} [Add α] [Mul α] (zero : α) (cast : Nat → α) (q : List α) (n : Nat) : α :=
+  gsum zero ((List.range n).map fun k => q.getD k zero * cast (k * k))
+
+/-- variance `Σ k² q(k) − (Σ k q(k))²` (f4 = sum of squares: variance, for `q = p_x`) -/
+def varG {α : Type} [Add α] [Sub α] [Mul α] (zero : α) (cast : Nat → α) (q : List α) (n : Nat) : α :=
+  meanSqG zero cast q n - meanG zero cast q n * meanG zero cast q n
+
+/-- f2 contrast `Σ_k k² p_{x−y}(k)` -/
+def contrastG {α : Type} [Add α] [Mul α] (zero : α) (cast : Nat → α) (m : Nat) (pminus : List α) : α :=
+  gsum zero ((List.range m).map fun k => cast (k * k) * pminus.getD k zero)
+
+/-- numerator of f3 (correlation): `Σ_{i,j} i j p(i,j) − μ_x μ_y` -/
+def covG {α : Type} [Add α] [Sub α] [Mul α] (zero : α) (cast : Nat → α) (m : Nat) (P : Nat → Nat → α)
+    (ux uy : α) : α :=
+  gsum zero ((allPairs m).map fun ij => cast (ij.1 * ij.2) * P ij.1 ij.2) - ux * uy
+
+/-- f5 inverse difference moment `Σ_{i,j} p(i,j) / (1 + (i−j)²)` -/
+def idmG {α : Type} [Add α] [Mul α] [Div α] (zero one : α) (cast : Nat → α) (m : Nat) (P : Nat → Nat → α) : α :=
+  gsum zero ((allPairs m).map fun ij =>
+    P ij.1 ij.2 / (one + cast (absDiff ij.1 ij.2 * absDiff ij.1 ij.2)))
+
+/-- f6 sum average `Σ_k k p_{x+y}(k)` -/
+def sumAvgG {α : Type} [Add α] [Mul α] (zero : α) (cast : Nat → α) (m : Nat) (pplus : List α) : α :=
+  gsum zero ((List.range (2 * m)).map fun k => cast k * pplus.getD k zero)
+
+/-- f7 sum variance `Σ_k (k − f6)² p_{x+y}(k)` -/
+def sumVarG {α : Type} [Add α] [Sub α] [Mul α] (zero : α) (cast : Nat → α) (m : Nat) (pplus : List α) (mu : α) : α :=
+  gsum zero ((List.range (2 * m)).map fun k => (cast k - mu) * (cast k - mu) * pplus.getD k zero)
+
+/-- f10 difference variance: the variance of the *values* of `p_{x−y}` (mahotas' default interpretation) -/
+def diffVarG {α : Type} [Add α] [Sub α] [Mul α] [Div α] (zero : α) (cast : Nat → α) (m : Nat) (pminus : List α) : α :=
+  let mean := gsum zero pminus / cast m
+  gsum zero (pminus.map fun v => (v - mean) * (v - mean)) / cast m
+
 /-- features 1..13 (Haralick 1973, with the corrected sum variance `Σ (k − f6)² p_{x+y}(k)`;
     f10 = variance of the *values* of `p_{x−y}` (mahotas' default interpretation)).
     `c` = integer matrix (row-major, `m×m`, already symmetrised / zero-stripped). -/
 def haralick13 (m : Nat) (c : List Nat) : List Float :=
   let p := normMat Float.ofNat c
-  let idx := List.range m
   let P := matAt 0.0 m p
   let fl := fun (n : Nat) => Float.ofNat n
-  let px := idx.map fun j => fsum (idx.map fun i => P i j)      -- p.sum(0)
-  let py := idx.map fun i => fsum (idx.map fun j => P i j)      -- p.sum(1)
-  let ux := fsum (idx.map fun k => px.getD k 0.0 * fl k)
-  let uy := fsum (idx.map fun k => py.getD k 0.0 * fl k)
-  let vx := fsum (idx.map fun k => px.getD k 0.0 * fl (k * k)) - ux * ux
-  let vy := fsum (idx.map fun k => py.getD k 0.0 * fl (k * k)) - uy * uy
+  let px := colSumG 0.0 m P      -- p.sum(0)
+  let py := rowSumG 0.0 m P      -- p.sum(1)
+  let ux := meanG 0.0 fl px m
+  let uy := meanG 0.0 fl py m
+  let vx := varG 0.0 fl px m
+  let vy := varG 0.0 fl py m
   let pplus := pplusG 0.0 m P
   let pminus := pminusG 0.0 m P
   let all := allPairs m
   let f1 := asmG 0.0 m P
-  let f2 := fsum (idx.map fun k => fl (k * k) * pminus.getD k 0.0)
-  let f3 := (fsum (all.map fun (i, j) => fl (i * j) * P i j) - ux * uy) / (Float.sqrt vx * Float.sqrt vy)
+  let f2 := contrastG 0.0 fl m pminus
+  let f3 := covG 0.0 fl m P ux uy / (Float.sqrt vx * Float.sqrt vy)
   let f4 := vx
-  let f5 := fsum (all.map fun (i, j) =>
-    let dd := (if i ≥ j then i - j else j - i); P i j / (1.0 + fl (dd * dd)))
-  let f6 := fsum ((List.range (2 * m)).map fun k => fl k * pplus.getD k 0.0)
-  let f7 := fsum ((List.range (2 * m)).map fun k => (fl k - f6) * (fl k - f6) * pplus.getD k 0.0)
+  let f5 := idmG 0.0 1.0 fl m P
+  let f6 := sumAvgG 0.0 fl m pplus
+  let f7 := sumVarG 0.0 fl m pplus f6
   let f8 := entropy pplus
   let f9 := entropy p.toList
-  let mean := fsum pminus / fl m
-  let f10 := fsum (pminus.map fun v => (v - mean) * (v - mean)) / fl m
+  let f10 := diffVarG 0.0 fl m pminus
   let f11 := entropy pminus
   let hx := entropy px
   let hy := entropy py
